@@ -101,7 +101,10 @@ def gen_tree(t, budget, ctx, depth=0):
     if kind == 'list':
         return children
     if kind == 'deque':
-        ml = t.draw(3, 'maxlen')
+        ml = t.draw(5, 'maxlen')
+        if ml >= 3:
+            # bounds outside CPython's small-int cache (two equal bounds are then two int objects after a pickle round trip)
+            return deque(children, maxlen=(257, 1000, 2 ** 40)[t.draw(3, 'maxlen-big')] + len(children))
         return deque(children, maxlen=None if ml == 0 else max(len(children), 1) + ml - 1)
     if kind in ('dict', 'odict', 'ddict'):
         items = list(zip(keys, children))
